@@ -20,6 +20,7 @@ def run(ck):
         # rank-4 first operands over one two-charge table: every dual pattern, charge, first/last sector missing,
         # every ordered choice of contracted axes, every mode
         mprogs += machine.run_machine(ck, "Z2", "abelian", "PoolZ2t", "OpsContract", rank=4, depth=3, mod=300, tids=_tids, timeout=3000)
+    mprogs += machine.run_machine(ck, "U1", "abelian", "PoolU1t", "OpsEinsum", rank=3, depth=2 if ck.tier == "quick" else 3, mod=40 if ck.tier == "quick" else 400, tids=_tids)
     ck.conform(mprogs)
     n = 160 if ck.tier == "quick" else 2500
     tids = gen.Tids()
